@@ -52,6 +52,15 @@ func (p *Cursor) SkipSpaces() {
 	}
 }
 
+// SkipInlineSpaces skips spaces and tabs, but stays on the current line
+func (p *Cursor) SkipInlineSpaces() {
+	for p.current() == ' ' || p.current() == '\t' {
+		if err := p.next(); err != nil { // EOF
+			break
+		}
+	}
+}
+
 func (p *Cursor) ReadAt(at rune) (string, error) {
 	var str []rune
 	for {
